@@ -106,6 +106,11 @@ def gen_spec(rng, proid, task, tier='quick', p_unresolvable=0.0):
     return spec
 
 
+def _via(rng):
+    r = rng.random()
+    return 'finish' if r < 0.45 else ('runtime' if r < 0.8 else 'cleanup_network')
+
+
 def estimate_steps(manifest, resolver_ips):
     """Upper estimate of the boundary steps of one start or finish (used only to
     place an injected cut somewhere inside the operation)."""
@@ -170,7 +175,7 @@ def gen_history(rng, tier='quick', p_unresolvable=0.0):
             if stage[i] == 'started':
                 attempts[i] = rng.choice([0, 0, 0, 0, 0, 1, 1, 1, 2])
                 stage[i] = 'finishing'
-            op = {'op': 'finish', 'c': i, 'via': 'finish' if rng.random() < 0.8 else 'cleanup_network',
+            op = {'op': 'finish', 'c': i, 'via': _via(rng),
                   'cut': None, 'repeat': 0}
             if attempts[i] > 0:
                 attempts[i] -= 1
@@ -186,11 +191,11 @@ def gen_history(rng, tier='quick', p_unresolvable=0.0):
             ops.append(op)
         elif done:
             ops.append({'op': 'refinish', 'c': rng.choice(done),
-                        'via': 'finish' if rng.random() < 0.8 else 'cleanup_network'})
+                        'via': _via(rng)})
     for i in range(n):
         if rng.random() < 0.35:
             ops.append({'op': 'refinish', 'c': i,
-                        'via': 'finish' if rng.random() < 0.8 else 'cleanup_network'})
+                        'via': _via(rng)})
     return names, specs, ops
 
 
